@@ -1,5 +1,5 @@
 CONSTANTS P = 43  A = 0  B = 7  Gx = 2  Gy = 12  N = 31  Mode = "recover"  RMax = 44
 CONSTANT ESet <- EAll
 SPECIFICATION Spec
-INVARIANT RecoverOk
+INVARIANT Holds
 CHECK_DEADLOCK FALSE
